@@ -3,7 +3,7 @@ import PyatvModel.C01.Driver
 /-
 Line protocol of the C13 model.
 
-  features <S> <v>      FacadeFeatures.get_feature for every feature, fresh state; `v` = AirPlay
+  features <S> <v> [<pk>] FacadeFeatures.get_feature for every feature, fresh state; `pk` = Companion's power state is known; `v` = AirPlay
                         advertises video                                  → Name=State,…
   proto <P> <c0> <c1>   protocol P's get_feature for every feature with its conditions c0 c1
   backed <S>            per feature: 1 iff some member it stands for is routed to an implementation
@@ -22,6 +22,10 @@ def handle (_ : Unit) (ws : List String) : Unit × String :=
     match parseSet? s, parseBit? v with
     | some S, some v => ((), csv (Feature.all.map fun f => s!"{f.name}={(facadeFeature S (freshEnv v) f).name}"))
     | _, _ => ((), "bad-op")
+  | ["features", s, v, pk] =>
+    match parseSet? s, parseBit? v, parseBit? pk with
+    | some S, some v, some pk => ((), csv (Feature.all.map fun f => s!"{f.name}={(facadeFeature S (freshEnv v pk) f).name}"))
+    | _, _, _ => ((), "bad-op")
   | ["proto", p, c0, c1] =>
     match parseProto? p, parseBit? c0, parseBit? c1 with
     | some p, some c0, some c1 => ((), csv (Feature.all.map fun f => s!"{f.name}={(protoFeature p c0 c1 f).name}"))
